@@ -224,3 +224,8 @@ LEVEL = "other"
 BOUNDS = {"quick": "all 936 generator programs x block outcomes of the property's grammar (3 x 13 x 3 x 10: the grammar's eight block outcomes plus exactly-Exception and exactly-BaseException; the grammar's ten handlers plus three that raise a new RuntimeError), each selected by four symbolic ints; also executed natively on the full grid", "thorough": "same (the space is finite and exhausted)"}
 OUTSIDE = ["generators with more than one try block or nested context managers", "__context__/__cause__ chains of the propagated exception", "KeyboardInterrupt is represented by a subclass"]
 NONTRIVIAL_RULE = "the block was entered and ended with an exception on the path"
+
+MANIFEST = {
+    "text": "All generator programs of the property's grammar (plus three RuntimeError handlers and two exact-base-class outcomes) crossed with block outcomes, each selected by symbolic ints, run under asyncstdlib.contextmanager and contextlib.asynccontextmanager; entered value, generator event log and outcome compared; GeneratorExit rule as stated. Nothing is claimed outside the bounds listed in the evidence file.",
+    "note": 'Trusted: CrossHair 0.0.110 (with short-circuiting off and a refined callable() model), z3 5.1.0, the harness oracles. The space is finite and exhausted in both tiers.',
+}
